@@ -1,3 +1,216 @@
 import BB.Driver.Util
-/-! Placeholder driver for C20 (replaced when the model is built). -/
-def main : IO Unit := BB.Driver.loop (fun (s : Unit) _ => (s, "unimplemented")) ()
+import BB.Model.Digest
+/-!
+Line-protocol driver of the C20 model (`BB.Digest`).  Every Go string / byte slice travels as
+lower-case hex (`-` = empty); a digest is its packed string (`Digest.String()`).
+
+    inst <s>                         NewInstanceName                 -> ok <s> | err <label>
+    instc <c>*                       NewInstanceNameFromComponents   -> ok <s> | err <label> | panic
+    comps <s>                        strings.FieldsFunc(s, '/') (GetComponents) -> <c>* | empty
+    pjoin <s>*                       path.Join                       -> <s>
+  a digest is given by four words  D = <inst> <enum> <hash> <size>  (NewInstanceName,
+  GetDigestFunction(enum, 0), NewDigest); a construction error is the reply of every D-operation
+    mk D                             -> ok <d> | err <label>
+    acc D                            -> ok <enum> <hash> <size> <inst>   (the getters)
+    rtread D <compressor>            -> <d> <path> => ok <d'> <compressor'> | err <label>
+    rtwrite D <uuid> <compressor>    -> <d> <path> => ...
+    read <path> / write <path>       NewDigestFromByteStream{Read,Write}Path -> ok <d> <compressor> | err <label>
+    rtproto D                        -> <d> <hash> <size> => ok <d'> | err   (d.GetDigestFunction().NewDigestFromProto(d.GetProto()))
+    fromproto <inst> <enum> <hash> <size> / fromproto-nil <inst> <enum>
+    key D <0|1>                      GetKey(KeyWithoutInstance|KeyWithInstance) -> <key>
+    anc D                            GetDigestsWithParentInstanceNames -> <d>*
+    rtcbin D                         -> <d> <bytes> => ok <d'> | err   (d.GetInstanceName().NewDigestFromCompactBinary(d.GetCompactBinary()))
+    fromcbin <inst> <bytes>          NewDigestFromCompactBinary      -> ok <d> | err <label>
+    build <d>*                       SetBuilder.Add* / Build         -> <d>* | empty
+    union <d>* (| <d>*)*             GetUnion                        -> <d>* | empty
+    dai <d>* | <d>*                  GetDifferenceAndIntersection    -> onlyA | both | onlyB
+    rmempty <d>*                     RemoveEmptyBlob                 -> <d>* | empty
+    part <d>*                        PartitionByInstanceName         -> <d>* (| <d>*)* | empty
+
+Set arguments of union/dai/rmempty/part must be sorted and duplicate free (they are values of
+type `Set`); anything else is `bad-op`.
+-/
+open BB.Driver BB.Digest
+
+def str? (w : String) : Option Str := (hexBytes? w).map fun bs => bs.map Char.ofNat
+def hexOfStr (s : Str) : String := bytesHex (s.map Char.toNat)
+
+def showList (l : List Str) : String :=
+  if l.isEmpty then "empty" else " ".intercalate (l.map hexOfStr)
+
+def showRes : Except Err Str → String
+  | .ok d => "ok " ++ hexOfStr d
+  | .error .panic => "panic"
+  | .error e => "err " ++ e.label
+
+def showResC : Except Err (Str × Nat) → String
+  | .ok (d, c) => s!"ok {hexOfStr d} {c}"
+  | .error .panic => "panic"
+  | .error e => "err " ++ e.label
+
+/-- Split a word list at "|" tokens. -/
+def splitBar (ws : List String) : List (List String) :=
+  let rec go : List String → List String → List (List String) → List (List String)
+    | [], cur, acc => (cur.reverse :: acc).reverse
+    | w :: rest, cur, acc => if w == "|" then go rest [] (cur.reverse :: acc) else go rest (w :: cur) acc
+  go ws [] []
+
+def isSortedSet : List Str → Bool
+  | a :: b :: rest => strLt a b && isSortedSet (b :: rest)
+  | _ => true
+
+def set? (ws : List String) : Option (List Str) :=
+  match ws.mapM str? with
+  | some l => if isSortedSet l then some l else none
+  | none => none
+
+def opt {α : Type} (f : α → String) : Option α → String
+  | some a => f a
+  | none => "panic"
+
+/-- `NewInstanceName` + `GetDigestFunction(e, 0)` + `NewDigest`. -/
+def mk (i : Str) (e : Nat) (h : Str) (z : Int) : Except Err Str :=
+  match newInstanceName i with
+  | .error err => .error err
+  | .ok i => mkDigest i e h z
+
+def dig? (i e h z : String) : Option (Except Err Str) :=
+  match str? i, nat? e, str? h, int? z with
+  | some i, some e, some h, some z => some (mk i e h z)
+  | _, _, _, _ => none
+
+/-- Run `f` on the digest described by four words; construction errors are the reply. -/
+def withDigest (i e h z : String) (f : Str → String) : String :=
+  match dig? i e h z with
+  | none => "bad-op"
+  | some (.error err) => showRes (.error err)
+  | some (.ok d) => f d
+
+/-- `d.GetDigestFunction()`: the bare function re-derived from the packed string, and the instance name. -/
+def functionOf (d : Str) : Option (BareFn × Str) :=
+  match unpack d with
+  | none => none
+  | some u => (getBareFunction u.fn 0).map fun f => (f, instOf d u)
+
+def stepWords : List String → String
+  | ["inst", s] =>
+    match str? s with
+    | some s => showRes (newInstanceName s)
+    | none => "bad-op"
+  | "instc" :: cs =>
+    match cs.mapM str? with
+    | some cs => showRes (instFromComponents cs)
+    | none => "bad-op"
+  | ["comps", s] =>
+    match str? s with
+    | some s => showList (fields s)
+    | none => "bad-op"
+  | "pjoin" :: es =>
+    match es.mapM str? with
+    | some es => hexOfStr (pathJoin es)
+    | none => "bad-op"
+  | ["mk", i, e, h, z] =>
+    match dig? i e h z with
+    | some r => showRes r
+    | none => "bad-op"
+  | ["acc", i, e, h, z] =>
+    withDigest i e h z fun d =>
+      match unpack d with
+      | some u => s!"ok {u.fn} {hexOfStr (hashOf d u)} {u.size} {hexOfStr (instOf d u)}"
+      | none => "panic"
+  | ["read", p] =>
+    match str? p with
+    | some p => showResC (parseRead p)
+    | none => "bad-op"
+  | ["write", p] =>
+    match str? p with
+    | some p => showResC (parseWrite p)
+    | none => "bad-op"
+  | ["rtread", i, e, h, z, c] =>
+    match nat? c with
+    | none => "bad-op"
+    | some c => withDigest i e h z fun d =>
+      match readPath d c with
+      | none => "panic"
+      | some p => s!"{hexOfStr d} {hexOfStr p} => {showResC (parseRead p)}"
+  | ["rtwrite", i, e, h, z, u, c] =>
+    match str? u, nat? c with
+    | some u, some c => withDigest i e h z fun d =>
+      match writePath d u c with
+      | none => "panic"
+      | some p => s!"{hexOfStr d} {hexOfStr p} => {showResC (parseWrite p)}"
+    | _, _ => "bad-op"
+  | ["rtproto", i, e, h, z] =>
+    withDigest i e h z fun d =>
+      match getProto d, functionOf d with
+      | some (ph, pz), some (f, inst) =>
+        s!"{hexOfStr d} {hexOfStr ph} {pz} => {showRes (newDigestFromProto f inst (some (ph, (pz : Int))))}"
+      | _, _ => "panic"
+  | ["fromproto", i, e, h, z] =>
+    match str? i, nat? e, str? h, int? z with
+    | some i, some e, some h, some z =>
+      match newInstanceName i with
+      | .error err => showRes (.error err)
+      | .ok i =>
+        match getBareFunction e 0 with
+        | none => showRes (.error .unknownFunction)
+        | some f => showRes (newDigestFromProto f i (some (h, z)))
+    | _, _, _, _ => "bad-op"
+  | ["fromproto-nil", i, e] =>
+    match str? i, nat? e with
+    | some i, some e =>
+      match newInstanceName i with
+      | .error err => showRes (.error err)
+      | .ok i =>
+        match getBareFunction e 0 with
+        | none => showRes (.error .unknownFunction)
+        | some f => showRes (newDigestFromProto f i none)
+    | _, _ => "bad-op"
+  | ["key", i, e, h, z, k] =>
+    match nat? k with
+    | some 0 => withDigest i e h z fun d => opt hexOfStr (getKey d false)
+    | some 1 => withDigest i e h z fun d => opt hexOfStr (getKey d true)
+    | _ => "bad-op"
+  | ["anc", i, e, h, z] =>
+    withDigest i e h z fun d => opt showList (ancestors d)
+  | ["rtcbin", i, e, h, z] =>
+    withDigest i e h z fun d =>
+      match getCompactBinary d, getInstanceName d with
+      | some bs, some inst => s!"{hexOfStr d} {bytesHex bs} => {showRes (newDigestFromCompactBinary inst bs)}"
+      | _, _ => "panic"
+  | ["fromcbin", i, bs] =>
+    match str? i, hexBytes? bs with
+    | some i, some bs =>
+      match newInstanceName i with
+      | .error err => showRes (.error err)
+      | .ok i => showRes (newDigestFromCompactBinary i bs)
+    | _, _ => "bad-op"
+  | "build" :: ds =>
+    match ds.mapM str? with
+    | some ds => showList (build ds)
+    | none => "bad-op"
+  | "union" :: ws =>
+    match (splitBar ws).mapM set? with
+    | some sets => showList (union sets)
+    | none => "bad-op"
+  | "dai" :: ws =>
+    match (splitBar ws).mapM set? with
+    | some [a, b] =>
+      let r := differenceAndIntersection a b
+      s!"{showList r.1} | {showList r.2.1} | {showList r.2.2}"
+    | _ => "bad-op"
+  | "rmempty" :: ws =>
+    match set? ws with
+    | some s => showList (removeEmptyBlob s)
+    | none => "bad-op"
+  | "part" :: ws =>
+    match set? ws with
+    | some s =>
+      let gs := partitionByInstanceName s
+      if gs.isEmpty then "empty" else " | ".intercalate (gs.map showList)
+    | none => "bad-op"
+  | _ => "bad-op"
+
+def step (s : Unit) (line : String) : Unit × String := (s, stepWords (words line))
+
+def main : IO Unit := loop step ()
